@@ -12,8 +12,9 @@
     The only place where an error is swallowed is [pw_drop] ([Drop]). *)
 From E57 Require Import Base.Prelude Model.Crc Model.Device Model.PagedWriter Model.PagedReader Model.Prog
   Model.Record Model.PcWriter Model.QueueReader Model.FileBin Model.ReaderOpen Model.DeviceChunked.
+From E57 Require Import Model.CrashImage.
 From E57 Require Import Proofs.PagedWriterProofs Proofs.ReaderProgStrict Proofs.FaultSim Proofs.FaultWriter
-  Proofs.FaultReader Proofs.FaultChunk.
+  Proofs.FaultReader Proofs.FaultChunk Proofs.CrashBridge.
 
 (** * Faults surface *)
 
@@ -39,6 +40,12 @@ Theorem C16_success_complete : forall (is : list item) (xml : list N) (i : N), 1
   d_bytes (pw_dev (fst (pw_drop (fst (wrun (fault_prog is xml) (pw0f i)))))) =
   d_bytes (pw_dev (fst (pw_drop (fst (wrun (fault_prog is xml) pw0))))).
 Proof. exact FaultWriter.C16_success_complete. Qed.
+
+(** the same in the vocabulary of C15: [crash_prog] is [fault_prog], [final_image] the completed file *)
+Theorem C16_success_is_final_image : forall (is : list item) (xml : list N) (i : N), 1 <= i ->
+  snd (wrun (crash_prog is xml) (pw0f i)) = Ok tt ->
+  d_bytes (pw_dev (fst (pw_drop (fst (wrun (crash_prog is xml) (pw0f i)))))) = final_image (crash_prog is xml).
+Proof. exact success_under_fault_is_final_image. Qed.
 
 Theorem C16_fault_surfaces_open : forall f i,
   i < d_ops (fst (ReaderOpen.reader_open (dev_init f None))) ->
@@ -107,6 +114,7 @@ Proof. exact cpr_read_page_equiv. Qed.
 Print Assumptions C16_fault_surfaces_writer.
 Print Assumptions C16_session.
 Print Assumptions C16_success_complete.
+Print Assumptions C16_success_is_final_image.
 Print Assumptions C16_fault_surfaces_open.
 Print Assumptions C16_fault_surfaces_validate_crc.
 Print Assumptions C16_fault_surfaces_raw_xml.
